@@ -67,6 +67,8 @@ impl EncoderWork {
                 .insert(self.original_received_count, original_shard);
 
             self.original_received_count += 1;
+            #[cfg(verif_shuttle)]
+            crate::verif::sched_point();
             Ok(())
         }
     }
